@@ -593,6 +593,11 @@ func (f *Frame) applyHavoc(st *State, targets []havocTarget, all bool, guard str
 			c.heapHavoc(st, h)
 		}
 		f.bumpAlloc(st)
+		for _, h := range names {
+			if h != allocHeap {
+				c.frontier[st.H[h]] = c.allocTerm(st)
+			}
+		}
 		return
 	}
 	// group by heap
@@ -636,6 +641,22 @@ func (f *Frame) applyHavoc(st *State, targets []havocTarget, all bool, guard str
 	for _, h := range order {
 		if h == allocHeap {
 			f.bumpAlloc(st)
+		}
+	}
+	defer func() {
+		// references stored in a havoc'd heap version existed by the end of the
+		// havoc'd region (loop iteration / callee)
+		for _, h := range order {
+			if h == allocHeap || h == "$iter" {
+				continue
+			}
+			if v, ok := st.H[h]; ok {
+				c.frontier[v] = c.allocTerm(st)
+			}
+		}
+	}()
+	for _, h := range order {
+		if h == allocHeap {
 			continue
 		}
 		if h == "$iter" {
